@@ -243,7 +243,7 @@ def hist(ctx, seq=("add", "change", "adjust"), orig=4, minb=2, maxb=5):
 def op_load(ctx, bins=(2, 3), where="in12", then=None, cur=2):
     """load (setPSDtoRecordedTime) from a recorded history written by the real record(): the loaded state satisfies RI, equals the
     record when the time is a recorded one, and a following extension leaves the loaded classes untouched"""
-    pbm = PBM(1e-10, 1e-9, 4, 2, 4)
+    pbm = PBM(1.0, 2.0, 4, 2, 4)           # initial grid 1, 1.25, .., 2: exactly representable, so the t = 0 placeholder loads without rounding
     pbm.enableRecording()
     recs, times = [], []
     tprev = 0.0
@@ -271,6 +271,8 @@ def op_load(ctx, bins=(2, 3), where="in12", then=None, cur=2):
         q = times[1]; k = 1
     elif where == "after":
         ctx.assume(q >= times[-1]); k = len(bins) - 1
+    elif where == "before":
+        ctx.assume(q <= 0)          # at or before the t = 0 placeholder record: the initial (empty) grid is loaded
     elif where == "in01":
         ctx.assume(q > 0); ctx.assume(q < times[0])
     elif where == "in12":
@@ -282,6 +284,9 @@ def op_load(ctx, bins=(2, 3), where="in12", then=None, cur=2):
         rb0, rw, nb, rpsd = recs[k]
         ctx.prove("load:state is the record at a recorded time", pbm.bins == nb and
                   ctx.all([ctx.eq(pbm.PSDbounds[i], rb0 + i * rw) for i in range(nb + 1)] + [ctx.eq(pbm.PSD[i], rpsd[i]) for i in range(nb)]))
+    if where == "before":
+        ctx.prove("load:before the first record the initial grid is restored, empty", pbm.bins == pbm.originalBins and
+                  ctx.all([ctx.eq(pbm.PSD[i], 0.0) for i in range(len(pbm.PSD))]) and float(pbm.min) == pbm.originalMin and float(pbm.max) == pbm.originalMax)
     if where == "in12":
         nbig = max(bins[0], bins[1])
         ctx.prove("load:between two records the grid is the one with more classes", pbm.bins == nbig)
@@ -302,7 +307,7 @@ _A = ["pre-state satisfies RI (uniform grid min + i*w, 0 < min, w > 0, populatio
 _seqs3 = [list(s) for s in itertools.product(("add", "change", "adjust", "update", "backup", "revert", "reset"), repeat=3)
           if s.count("change") + s.count("adjust") <= 1]       # two re-meshes in one history are beyond the solver within the budget
 HARNESSES = [
-    Harness("C08.op_reset", op_reset, functions=_ALL, assumptions=_A, params={"quick": [{"n": 3, "keep": False}, {"n": 3, "keep": True}], "thorough": [{"n": 5, "keep": False}, {"n": 5, "keep": True}]}),
+    Harness("C08.op_reset", op_reset, functions=_ALL, assumptions=_A, params={"quick": [{"n": 3, "keep": False}, {"n": 3, "keep": True}, {"n": 4, "keep": False}], "thorough": [{"n": 5, "keep": False}, {"n": 5, "keep": True}]}),
     Harness("C08.op_add", op_add, functions=_ALL, assumptions=_A, params={"quick": [{"n": 2, "k": 1}, {"n": 3, "k": 2}], "thorough": [{"n": 4, "k": 3}, {"n": 5, "k": 1}]}),
     Harness("C08.op_change", op_change, functions=_ALL, assumptions=_A + ["cMin > 0"], opts={"ob_timeout": 75.0, "max_paths": 400},
             budget={"quick": 240.0, "thorough": 1800.0},
@@ -325,8 +330,8 @@ HARNESSES = [
     Harness("C08.op_load", op_load, functions=_ALL, assumptions=_A + ["the recorded history is written by the real record(); record times strictly increase"],
             bounds={"records": 2, "classes per record": "bins"}, opts={"ob_timeout": 30.0, "max_paths": 400}, budget={"quick": 120.0, "thorough": 900.0},
             params={"quick": [{"bins": [2, 3], "where": "in12", "then": "add"}, {"bins": [3, 2], "where": "at1", "then": "add"},
-                              {"bins": [2, 2], "where": "after", "then": "add"}],
-                    "thorough": [{"bins": list(b), "where": wh, "then": th} for b in ((2, 3), (3, 2), (3, 3), (2, 4)) for wh in ("in01", "in12", "at1", "at2", "after", "any")
+                              {"bins": [2, 2], "where": "after", "then": "add"}, {"bins": [2, 3], "where": "before", "then": "add"}],
+                    "thorough": [{"bins": list(b), "where": wh, "then": th} for b in ((2, 3), (3, 2), (3, 3), (2, 4)) for wh in ("before", "in01", "in12", "at1", "at2", "after", "any")
                                  for th in (None, "add")]}),
     Harness("C08.hist", hist, functions=_ALL, assumptions=["histories start from the constructor; operation arguments symbolic"],
             opts={"ob_timeout": 20.0, "max_paths": 300}, budget={"quick": 120.0, "thorough": 900.0}, validate=1,
